@@ -167,8 +167,6 @@ def run(tier, seed):
         if not canon.same(c["exp"], got):
             report(c, src, "with its operands held by variables of a long-lived interpreter", got, exc, "via-variable")
             continue
-        if c["form"] in ("while", "scanwhile"):
-            continue      # two lambdas in front of the operand: the parameters of the inner lambdas make the wrapper a monad
         K(f"g::{{{src}}}")
         ev1("g()")
         got, exc = ev1("g()")
